@@ -1,12 +1,16 @@
 package main
 
 import (
+	"context"
 	"fmt"
 	"sort"
 	"strconv"
 	"strings"
+	"time"
 
 	"github.com/paulmach/orb"
+	"github.com/paulmach/osm"
+	"github.com/paulmach/osm/annotate"
 )
 
 // C16 — multipolygon assembly. Uses the `conv` op of c17.go with a ground-truth section
@@ -20,7 +24,12 @@ func init() {
 		Rule: "ground-truth polygon sets on the integer lattice (1..3 disjoint outers: rectangles, L-shapes, octagons; 0..2 rectangular holes each, strictly inside; no vertex at 0,0) cut at every/random vertex subsets into 1..5 pieces per ring, each piece reversed or not, members shuffled, coordinates from node objects or from annotated way nodes, members with correct orientation annotations or none, relation with or without own tags (old-style single outer); small instances enumerate all cut/reverse choices; " +
 			"non-trivial = at least 3 member ways; distinct = distinct op line",
 		Gen:   c16Gen,
-		Exec:  c17Exec,
+		Exec: func(op string) (string, *Violation) {
+			if strings.HasPrefix(op, "orient ") {
+				return c16OrientExec(op)
+			}
+			return c17Exec(op)
+		},
 		Class: c16Class,
 	})
 }
@@ -253,6 +262,11 @@ func c16Gen(r *Rng, tier string, emit func(string)) {
 	}
 	for i := 0; i < n; i++ {
 		emit(c16One(r, 1+r.Intn(3), r.Intn(3), r.Intn(512), r.Intn(32), r.Intn(16), r.Intn(16), r.Intn(4)))
+		if i%3 == 0 {
+			// annotation of member orientation: ways carry their node locations, members are not annotated yet
+			op := c16One(r, 1+r.Intn(3), r.Intn(3), r.Intn(512), r.Intn(32), r.Intn(16), r.Intn(16), 1)
+			emit("orient " + strings.TrimPrefix(op, "conv 0000 "))
+		}
 	}
 }
 
@@ -356,4 +370,76 @@ func c16One(r *Rng, nOuter, nHoles, cutsO, revO, cutsI, revI, mode int) string {
 	}
 	return strings.Join(strings.Fields(fmt.Sprintf("conv 0000 N %s W %s R 900~1~1~0~%s~%s T %s",
 		strings.Join(nodeToks, " "), strings.Join(wayToks, " "), relTags, strings.Join(members, ";"), strings.Join(truth, " "))), " ")
+}
+
+// c16OrientExec: annotate.Relations on a multipolygon whose member ways are fully annotated; prints the
+// orientation written to each member and checks it against the ground truth rings.
+func c16OrientExec(op string) (string, *Violation) {
+	c, ok := c17Parse("conv 0000 " + strings.TrimPrefix(op, "orient "))
+	if !ok || len(c.o.Relations) != 1 {
+		return "bad-op", nil
+	}
+	t0 := time.Unix(1500000000, 0).UTC()
+	t1 := t0.Add(time.Hour)
+	ds := &osm.HistoryDatasource{Ways: map[osm.WayID]osm.Ways{}, Nodes: map[osm.NodeID]osm.Nodes{}, Relations: map[osm.RelationID]osm.Relations{}}
+	for _, w := range c.o.Ways {
+		w.Version, w.Visible, w.Timestamp, w.Committed = 1, true, t0, &t0
+		for i := range w.Nodes {
+			w.Nodes[i].Version = 1
+		}
+		ds.Ways[w.ID] = osm.Ways{w}
+	}
+	rel := c.o.Relations[0]
+	rel.Version, rel.Visible, rel.Timestamp, rel.Committed = 1, true, t1, &t1
+	if err := annotate.Relations(context.Background(), osm.Relations{rel}, ds, annotate.Threshold(0)); err != nil {
+		return "err", &Violation{Signature: "annotate-error", Text: err.Error()}
+	}
+	var out []string
+	for _, m := range rel.Members {
+		out = append(out, strconv.Itoa(int(m.Orientation)))
+	}
+	res := strings.Join(out, " ")
+	// ground truth: the direction in which each way runs around its ring
+	var rings []c16Ring
+	var ccw []bool
+	for _, t := range c.truth {
+		kv := strings.SplitN(t, "=", 2)
+		r := c16ParseRing(kv[1])
+		rings = append(rings, r)
+		ccw = append(ccw, c16Area2(r) > 0)
+	}
+	wayByID := map[osm.WayID]*osm.Way{}
+	for _, w := range c.o.Ways {
+		wayByID[w.ID] = w
+	}
+	for mi, m := range rel.Members {
+		w := wayByID[osm.WayID(m.Ref)]
+		if w == nil || len(w.Nodes) < 2 {
+			continue
+		}
+		p0 := orb.Point{w.Nodes[0].Lon, w.Nodes[0].Lat}
+		p1 := orb.Point{w.Nodes[1].Lon, w.Nodes[1].Lat}
+		want := 0
+		for ri, r := range rings {
+			n := len(r) - 1
+			for i := 0; i < n; i++ {
+				if r[i] == p0 && r[(i+1)%n] == p1 {
+					want = 1
+					if !ccw[ri] {
+						want = -1
+					}
+				}
+				if r[i] == p1 && r[(i+1)%n] == p0 {
+					want = -1
+					if !ccw[ri] {
+						want = 1
+					}
+				}
+			}
+		}
+		if want != 0 && int(m.Orientation) != want {
+			return res, &Violation{Signature: "member-orientation", Text: fmt.Sprintf("member %d (way %d) annotated with orientation %d, but it runs %d around its ring", mi, m.Ref, m.Orientation, want)}
+		}
+	}
+	return res, nil
 }
